@@ -37,10 +37,6 @@ Definition fits_int32 (z : Z) : bool := ((- 2 ^ 31 <=? z) && (z <? 2 ^ 31))%Z.
 (* reflect.Value.OverflowFloat for a float32 target: MaxFloat32 < |x| <= MaxFloat64 *)
 Definition max_f32_as_f64 : N := 5183643170566569984.   (* 0x47EFFFFFE0000000 *)
 Definition max_f64 : N := 9218868437227405311.          (* 0x7FEFFFFFFFFFFFFF *)
-(* float32(x) as the hardware does it; Num/Float.v's [narrow] is only right for non-NaN input
-   (it adds the quiet bit instead of or-ing it), so NaN is handled here *)
-Definition narrow_go (b : N) : N :=
-  if f64_is_nan b then f64_sign b * 2 ^ 31 + 2143289344 + (f64_man b / 2 ^ 29) mod 4194304 else narrow b.
 Definition overflow_f32 (b : N) : bool :=
   let a := b mod 2 ^ 63 in (max_f32_as_f64 <? a) && (a <=? max_f64).
 
@@ -148,18 +144,34 @@ Fixpoint first_ann (l : list field) : option field :=
 Fixpoint first_non_ann (l : list field) : option field :=
   match l with [] => None | f :: r => if f_ann f then first_non_ann r else Some f end.
 
-Definition is_symtok_slice (t : gty) : bool := match t with TySlice TySymTok => true | _ => false end.
 Definition anns_val (a : list symv) : gval :=
   match a with [] => GSlice None | _ => GSlice (Some (map (fun y => GSymTok (tok_of_symv y)) a)) end.
+Fixpoint ann_texts (a : list symv) : option (list gval) :=
+  match a with
+  | [] => Some []
+  | SymText x :: r => option_map (cons (GString x)) (ann_texts r)
+  | SymSid _ :: _ => None
+  end.
 
-(* attachAnnotations: subValue.Set(reflect.ValueOf(annotations)) panics unless the field is a
-   settable []SymbolToken *)
+(* attachAnnotations (after fix_annotations_string_slice): []SymbolToken (or interface{}) receives the
+   tokens, []string their texts (error for an annotation without text), anything else is an error *)
+Definition ann_field_val (ft : gty) (a : list symv) : res gval :=
+  match ft with
+  | TySlice TySymTok => Ok (anns_val a)
+  | TyIface => Ok (GIface (Some (TySlice TySymTok, anns_val a)))
+  | TySlice TyString =>
+    match a with
+    | [] => Ok (GSlice None)
+    | _ => match ann_texts a with Some l => Ok (GSlice (Some l)) | None => Err end
+    end
+  | _ => Err
+  end.
 Definition attach_ann (t : gty) (cur : gval) (ro : bool) (a : list symv) : res gval :=
   do fields <- fields_for t;
   match first_ann fields with
   | None => Ok cur
   | Some f => upd_path t cur ro (f_path f)
-                (fun ft _ fro => if fro then Panic else if is_symtok_slice ft then Ok (anns_val a) else Panic)
+                (fun ft _ fro => do g <- ann_field_val ft a; if fro then Panic else Ok g)
   end.
 
 (* isAcceptableKind lists, by Ion type class *)
@@ -255,7 +267,8 @@ Fixpoint dec_slice_elems (rec : recT) (e : gty) (ro : bool) (isnil : bool) (cur 
   | [] =>
     let out := rev acc in
     match out, isnil with
-    | [], true => Ok cur
+    | [], true =>                                  (* v.Set(reflect.MakeSlice(t, 0, 0)) *)
+      if ro then Panic else if is_u8 e then Ok (GBytes (Some [])) else Ok (GSlice (Some []))
     | _, _ =>
       if ro && match old with [] => false | _ => true end then Panic     (* v.SetLen(i) *)
       else if is_u8 e
@@ -299,7 +312,7 @@ Definition dec_value (rec : recT) (t : gty) (cur : gval) (ro : bool) (v : value)
     end
   | VFloat b =>
     match t with
-    | TyF32 => if overflow_f32 b then Err else setv ro (GFloat (narrow_go b))
+    | TyF32 => if overflow_f32 b then Err else setv ro (GFloat (narrow b))
     | TyF64 => setv ro (GFloat b)
     | TyDecimal => Err                   (* float -> Decimal via FormatFloat: not modelled *)
     | TyIface => setv ro (dyn TyF64 (GFloat b))
@@ -320,8 +333,8 @@ Definition dec_value (rec : recT) (t : gty) (cur : gval) (ro : bool) (v : value)
     end
   | VSymbol y =>
     match t with
-    | TyString => match symv_text y with Some x => setv ro (GString x) | None => Panic end   (* *val.Text *)
-    | TySymTok => Panic                  (* v.Set(reflect.ValueOf(val)) with val a *SymbolToken *)
+    | TyString => match symv_text y with Some x => setv ro (GString x) | None => Err end
+    | TySymTok => do g <- setv ro (GSymTok (tok_of_symv y)); attach_ann t g ro (anns_of v)
     | TyIface => setv ro (dynp TySymTok (GSymTok (tok_of_symv y)))
     | _ => or_wrapper rec t cur ro v CStructKindV
     end
@@ -350,6 +363,7 @@ Definition dec_value (rec : recT) (t : gty) (cur : gval) (ro : bool) (v : value)
       dec_map_fields rec e ro l m0
     | TyIface => setv ro (decode_any (VStruct l))
     | TySymTok => Err                     (* not modelled *)
+    | TyTimestamp | TyTime | TyDecimal | TyBigInt => Err     (* fix_struct_into_scalar_type *)
     | _ =>
       if is_struct_kind t then
         (* decodeStructToStruct *)
@@ -377,7 +391,9 @@ Definition dec_value (rec : recT) (t : gty) (cur : gval) (ro : bool) (v : value)
 
 (* the rest of decodeTo once indirect has stopped at (t, cur) *)
 Definition at_break (rec : recT) (t : gty) (cur : gval) (ro : bool) (v : value) : res gval :=
-  if is_null v then
+  (* fix_unexported_embedded_set: the value of an unexported embedded field cannot be replaced *)
+  if ro && (is_null v || negb (is_struct_kind t) || is_scalar_struct t) then Err
+  else if is_null v then
     if ro then Panic
     else if is_struct_kind t then attach_ann t (zero t) ro (anns_of v) else Ok (zero t)
   else dec_value rec t cur ro v.
@@ -400,7 +416,7 @@ Definition dec_body (rec : recT) (t : gty) (cur : gval) (ro : bool) (v : value) 
       then at_break rec t cur ro v
       else
         match p with
-        | None => if ro then Panic else do y' <- rec e (zero e) ro v; Ok (GPtr (Some y'))
+        | None => if ro then Err else do y' <- rec e (zero e) ro v; Ok (GPtr (Some y'))
         | Some y => do y' <- rec e y ro v; Ok (GPtr (Some y'))
         end
     | _ => Panic      (* ill-typed current value *)
